@@ -119,6 +119,95 @@ func c02DescribeField(f c02Field, v uint64) string {
 	return fmt.Sprintf("%s@%d+%d=%#x", k, f.off, f.n, v)
 }
 
+// grown byte fields ------------------------------------------------------------
+
+// c02VarField is a length-prefixed byte field (WriteVarBytes / WriteVarString:
+// a varint write followed by one data write of exactly that length) of a
+// template, or a zero varint (an empty byte field or an empty list).
+type c02VarField struct {
+	off, n           int  // the length prefix
+	dataOff, dataLen int  // the bytes it announces
+	matched          bool // a data write of exactly the announced length follows
+}
+
+func c02VarFields(t *c02Template) []c02VarField {
+	var out []c02VarField
+	segs := t.segs
+	for i := 0; i < len(segs); i++ {
+		s := segs[i]
+		if s.n != 1 {
+			continue
+		}
+		b := t.bytes[s.off]
+		var val uint64
+		pn, next := 1, i+1
+		if b >= 0xfd {
+			want := map[byte]int{0xfd: 2, 0xfe: 4, 0xff: 8}[b]
+			if i+1 >= len(segs) || segs[i+1].off != s.off+1 || segs[i+1].n != want {
+				continue
+			}
+			raw := make([]byte, 8)
+			copy(raw, t.bytes[s.off+1:s.off+1+want])
+			val = binary.LittleEndian.Uint64(raw)
+			pn, next = 1+want, i+2
+		} else {
+			val = uint64(b)
+		}
+		end := s.off + pn
+		switch {
+		case val == 0:
+			out = append(out, c02VarField{off: s.off, n: pn, dataOff: end})
+		case next < len(segs) && segs[next].off == end && uint64(segs[next].n) == val:
+			out = append(out, c02VarField{off: s.off, n: pn, dataOff: end, dataLen: int(val), matched: true})
+			i = next
+		}
+	}
+	return out
+}
+
+// c02GrownCase is one (claimed length, supplied bytes) combination. chunk is
+// the read granularity of the repository's growing reader (32 KiB): inputs that
+// really carry more than one chunk of a field, announce far more, and end
+// early are the ones a reader may wrongly start trusting.
+type c02GrownCase struct {
+	name     string
+	claim    uint64 // 0 = the real length
+	supplied int
+	withTail bool // complete the value with the rest of the template (honest, grown)
+}
+
+const c02Chunk = 32 << 10
+
+var c02GrownCases = []c02GrownCase{
+	{"claim16MiB/chunk-1", 16 << 20, c02Chunk - 1, false},
+	{"claim16MiB/chunk", 16 << 20, c02Chunk, false},
+	{"claim16MiB/chunk+1", 16 << 20, c02Chunk + 1, false},
+	{"claim16MiB/chunk+64", 16 << 20, c02Chunk + 64, false},
+	{"claim8MiB/33KiB", 8 << 20, 33 << 10, false},
+	{"claim12MiB/2chunks+1", 12 << 20, 2*c02Chunk + 1, false},
+	{"claim1MiB/33KiB", 1 << 20, 33 << 10, false},
+	{"claim-real/33KiB-1-missing", 33 << 10, 33<<10 - 1, false},
+	{"real/100KiB", 0, 100 << 10, true},
+}
+
+// c02Grow builds the input: template up to the field, the claimed length, the
+// supplied bytes, and (for the honest variant) the rest of the template.
+func c02Grow(t *c02Template, f c02VarField, g c02GrownCase, filler []byte) []byte {
+	claim := g.claim
+	if claim == 0 {
+		claim = uint64(g.supplied)
+	}
+	enc := c02EncVarint(claim)
+	out := make([]byte, 0, f.off+len(enc)+g.supplied+len(t.bytes))
+	out = append(out, t.bytes[:f.off]...)
+	out = append(out, enc...)
+	out = append(out, filler[:g.supplied]...)
+	if g.withTail {
+		out = append(out, t.bytes[f.dataOff+f.dataLen:]...)
+	}
+	return out
+}
+
 // cheap byte-level mutations -------------------------------------------------
 
 func c02FlipBits(r *rand.Rand, b []byte) []byte {
